@@ -5,6 +5,7 @@ import Cinco.Format.Yaml
 import Cinco.Crypto.Secure
 import Cinco.Crypto.KeyFile
 import Cinco.Crypto.Digest
+import Cinco.Generated.Effects
 import Cinco.Crypto.Aes256
 import Cinco.Crypto.Hashes
 /-
@@ -228,6 +229,23 @@ def handle (cmd : String) (j : Json) : R Json := do
       | .ok (some dv, _) => pure (Json.mkObj [("out", "ok"), ("dv", dvToJson dv)])
       | .ok (none, _) => pure (Json.mkObj [("out", "ok"), ("dv", Json.null)])
       | .error _ => pure (Json.mkObj [("out", "reject")])
+  | "save.exec" => do
+      -- interpret today's generated `Config.save` effect sequence with a fault at the first effect named `fault_at`
+      let content ← fBytes j "content"
+      let prog := Generated.saveProg
+      let fault : Option Nat ← match fieldOpt j "fault_at" with
+        | some (.str "open") => pure (some (Effects.firstUnsafe prog))
+        | some (.str fn) => match (List.range prog.length).find? (fun i => Effects.isCall fn (prog.getD i .read)) with
+            | some i => pure (some i)
+            | none => throw s!"no call {fn} in saveProg"
+        | _ => pure none
+      let st := Effects.exec content fault 0 {} prog
+      let dest := match st.dest with
+        | .untouched => Json.str "untouched"
+        | .truncated => Json.str "truncated"
+        | .written b => Json.mkObj [("written", bytesJson b)]
+        | .garbage => Json.str "garbage"
+      pure (Json.mkObj [("dest", dest), ("raised", Json.bool st.raised), ("opened", Json.bool st.opened)])
   | "hash" => do
       match Hash.byName (← fStr j "alg") with
       | some h => pure (Json.mkObj [("digest", bytesJson (h (← fBytes j "data")))])
